@@ -128,11 +128,17 @@ Definition iter3 (st : state2) (idf : N -> prog N) : list N :=
 Definition query3 (st : state2) : list tok :=
   let n := nd st in
   tN n :: flat_map (fun d =>
-      flat_map (fun p => tlist3 (orbit3 n (mem st) p d)) query_policies3 ++
+      flat_map (fun p => tlist3 (orbit3 n (mem st) p d) ++ tlist3 (orbit3 n (mem st) p d)) query_policies3 ++
       topt3 (ev3 st (vertex_id3 n d)) ++ topt3 (ev3 st (edge_id3 n d)) ++ topt3 (ev3 st (face_id3 n d)) ++
       topt3 (ev3 st (volume_id3 n d))) (tl (nrange n)) ++
   tlist3 (Some (iter3 st (vertex_id3 n))) ++ tlist3 (Some (iter3 st (edge_id3 n))) ++
-  tlist3 (Some (iter3 st (face_id3 n))) ++ tlist3 (Some (iter3 st (volume_id3 n))).
+  tlist3 (Some (iter3 st (face_id3 n))) ++ tlist3 (Some (iter3 st (volume_id3 n))) ++
+  (* g(next d) asked right after f(d), for the 16 pairs of id functions: the model's ids are functions *)
+  flat_map (fun d =>
+      let d2 := d mod (n - 1) + 1 in
+      flat_map (fun _ : N => topt3 (ev3 st (vertex_id3 n d2)) ++ topt3 (ev3 st (edge_id3 n d2)) ++
+                             topt3 (ev3 st (face_id3 n d2)) ++ topt3 (ev3 st (volume_id3 n d2))) [0; 1; 2; 3])
+    (tl (nrange n)).
 
 Fixpoint run_ops3 (fuel : nat) (obs : bool) (st : state2) (ts : list tok) : list (list tok) :=
   match fuel with
